@@ -27,11 +27,31 @@ class SymSpec(Sym):
         return SymInter(self.text)
 
 
+_OBJ_TEMPLATES = {}
+
+
+def _describe(o):
+    """stable structural label of a specifier object (same on every fork of the symbolic execution)"""
+    n = o.cls.name
+    if n == "RangeSpecifier":
+        lo, hi = o.f.get("min"), o.f.get("max")
+        return (f"Range[{'-inf' if lo is None else lo.vstr()}{'i' if o.f.get('include_min') else 'x'},"
+                f"{'+inf' if hi is None else hi.vstr()}{'i' if o.f.get('include_max') else 'x'}]")
+    if n == "UnionSpecifier":
+        return "Union(" + ";".join(_describe(r) for r in o.f.get("ranges") or ()) + ")"
+    return n
+
+
 class ReqPy(Sym):
     def __repr__(self):
         return "REQUIRES_PYTHON"
 
     def sym_and(self, other):
+        if isinstance(other, AObj):
+            # a wheel range built directly from the specifier classes instead of parse_version_specifier(text)
+            label = "object:" + _describe(other)
+            _OBJ_TEMPLATES[label] = other
+            return SymInter(label)
         if not isinstance(other, SymSpec):
             raise AnalysisError("requires_python combined with something other than a wheel-range template")
         return SymInter(other.text)
@@ -183,6 +203,26 @@ class TagsDomain:
         return ("weird", f"{len(outs)} outcomes: {outs!r}"[:300])
 
     def tset(self, text):
+        if text in _OBJ_TEMPLATES:
+            return self.object_set(_OBJ_TEMPLATES[text])
         if text not in self.templates:
             self.templates[text] = template_set(text)
         return self.templates[text]
+
+    def object_set(self, s):
+        """grid interpreters admitted by a specifier OBJECT (interval semantics over its bounds)."""
+        def member(o, v):
+            n = o.cls.name
+            if n == "EmptySpecifier":
+                return False
+            if n == "AnySpecifier":
+                return True
+            if n == "RangeSpecifier":
+                lo, hi = o.f.get("min"), o.f.get("max")
+                okl = lo is None or v.rank > lo.rank or (v.rank == lo.rank and o.f.get("include_min"))
+                okh = hi is None or v.rank < hi.rank or (v.rank == hi.rank and o.f.get("include_max"))
+                return bool(okl and okh)
+            if n == "UnionSpecifier":
+                return any(member(r, v) for r in o.f.get("ranges") or ())
+            raise AnalysisError(f"wheel range of unexpected class {n}")
+        return frozenset(g for g in GRID if member(s, pkgmodel.Version(f"{g[0]}.{g[1]}.{g[2]}")))
